@@ -57,6 +57,33 @@ func captureFds() (*fdCapture, error) {
 	return &fdCapture{f1, f2}, nil
 }
 
+// borrowFds redirects fds 1 and 2 onto fresh files for the duration of one call and gives them back afterwards
+// (the returned function restores the fds and returns what was written to each).
+func borrowFds() func() (out1, out2 []byte) {
+	s1, e1 := syscall.Dup(1)
+	s2, e2 := syscall.Dup(2)
+	f1, e3 := os.CreateTemp(".", "fd1-*.out")
+	f2, e4 := os.CreateTemp(".", "fd2-*.out")
+	if e1 != nil || e2 != nil || e3 != nil || e4 != nil {
+		panic(fmt.Sprint("harness: borrowFds: ", e1, e2, e3, e4))
+	}
+	_ = syscall.Dup2(int(f1.Fd()), 1)
+	_ = syscall.Dup2(int(f2.Fd()), 2)
+	return func() ([]byte, []byte) {
+		_ = syscall.Dup2(s1, 1)
+		_ = syscall.Dup2(s2, 2)
+		_ = syscall.Close(s1)
+		_ = syscall.Close(s2)
+		b1, _ := os.ReadFile(f1.Name())
+		b2, _ := os.ReadFile(f2.Name())
+		f1.Close()
+		f2.Close()
+		_ = os.Remove(f1.Name())
+		_ = os.Remove(f2.Name())
+		return b1, b2
+	}
+}
+
 func (c *fdCapture) size(f *os.File) int64 {
 	st, err := f.Stat()
 	if err != nil {
